@@ -257,3 +257,10 @@ PROPS["C16"] = {
     "filter": lambda l: l.startswith(("lq_setup", "lq_msk", "lq_id", "lq_keygen", "lq_encrypt", "lq_decrypt", "lq_ctmod")),
     "hypotheses": ["H-bilinear", "H-card (Q_id lies in G1 after cofactor clearing)"],
 }
+
+# --- T7 mirrors: digests of the C++ functions the hand-written models mirror (see translate/mirrors2lean.py)
+for _pid in ("C01", "C02", "C06", "C07", "C08", "C09", "C10", "C11", "C12", "C13", "C14", "C15", "C16", "C17"):
+    _P = PROPS[_pid]
+    _P["translators"] = list(_P.get("translators", [])) + ["mirrors2lean"]
+    _P["lean_targets"] = list(_P.get("lean_targets", [])) + ["JediVerif.Properties.Mirrors"]
+    _P["theorems"] = (lambda _old=_P["theorems"], _p=_pid: _old() + [("Jedi.Mirrors.mirror_%s" % _p, "JediVerif.Properties.Mirrors")])
